@@ -101,6 +101,39 @@ theorem turn_spot_checks :
     turnOfAngle 30 = some .slightRight ∧ turnOfAngle (-30) = some .slightLeft ∧
     turnOfAngle 150 = some .sharpRight ∧ turnOfAngle (-150) = some .sharpLeft := by decide +kernel
 
+/-- a turn seen in a mirror: left and right change places -/
+def mirrorTurn : Turn → Turn
+  | .slightRight => .slightLeft
+  | .slightLeft => .slightRight
+  | .right => .left
+  | .left => .right
+  | .sharpRight => .sharpLeft
+  | .sharpLeft => .sharpRight
+  | t => t
+
+/-- how far a turn departs from straight ahead -/
+def turnSeverity : Turn → Nat
+  | .noTurn => 0
+  | .slightRight | .slightLeft => 1
+  | .right | .left => 2
+  | .sharpRight | .sharpLeft => 3
+  | .uTurn => 4
+
+/-- **the classification does not prefer a side**: the turn through `-a` is the mirror image of the
+turn through `a`, for every angle of the table regenerated from `Turn::from_angle` (so a left turn of
+45° is a "left" exactly as a right turn of 45° is a "right": a class boundary moved on one side only
+charges the wrong delay for the angles between the two boundaries) -/
+theorem turn_mirror_symmetric : ∀ i : Fin 361,
+    turnOfAngle (-((i : Int) - 180)) = (turnOfAngle ((i : Int) - 180)).map mirrorTurn := by
+  decide +kernel
+
+/-- **a larger deviation is never a milder turn**: from straight ahead to a reversal, on either side,
+the class only grows in severity (the ranges are contiguous and ordered) -/
+theorem turn_severity_monotone : ∀ i : Fin 180,
+    ((turnOfAngle (i : Int)).map turnSeverity).getD 0 ≤ ((turnOfAngle ((i : Int) + 1)).map turnSeverity).getD 0 ∧
+    ((turnOfAngle (-(i : Int))).map turnSeverity).getD 0 ≤ ((turnOfAngle (-((i : Int) + 1))).map turnSeverity).getD 0 := by
+  decide +kernel
+
 /-- for headings in [0, 360) the bearing from one edge to the next is wrapped into [-180, 180]
 and is congruent to (arrival of next − departure of previous) modulo 360 -/
 theorem bearing_wrapped (a₁ a₂ : Int) (d₁ d₂ : Option Int) (h1 : 0 ≤ a₂ ∧ a₂ < 360)
